@@ -706,7 +706,14 @@ def run(ctx):
                 'TLC printed; overflow menu of 23 days x months -36..48.  C2S: per year and spelling class the outcomes of all '
                 'chosen days packed as runs and unpacked/judged day by day by Trace_Dt; random single calls; overflow for all '
                 'd in -400..400.  Non-trivial = any spelling other than the datetime object itself; distinct by spelling class x '
-                'day (S2C), by spelling class x year x month (C2S), by concrete argument (singles), by (year, month) outside 1..12 (overflow).')
+                'day (S2C), by spelling class x year x month (C2S), by concrete argument (singles), by (year, month) outside 1..12 (overflow).  '
+                'Strings also write hour:minute only and the seconds with 1..9 decimals (Dates!FracUs: n written with k digits = n / 10^k s).  '
+                'SESSIONS (MC_DatesSess: a call has no memory): histories of 2 calls (thorough: TLC-simulated, 5 calls) on one day in a '
+                'process that never called dt() before - the second call collides with the first on a possible memo key (same argument '
+                'object in the other dialect / through the other entry point, same integers in another rendering, same day with another '
+                'time of day, another form with the same digits / integer part / day, a yyyymmdd number or ordinal with a fraction of a '
+                'day before the plain integer, any other spelling class in turn); every call == Dates!Expected of that call alone.  '
+                'C2S: random histories of 2..5 calls judged call by call by Trace_Dt (k = "sess").  Distinct sessions by day x call classes.')
     ctx.mc('MC_Civil', 'MC_Civil.cfg')
     ctx.mc('MC_Dates', 'MC_Dates_quick.cfg' if ctx.quick else 'MC_Dates_thorough.cfg')
     # the mechanism model of today's uk2dt/us2dt is expected to break the law (see the findings below)
@@ -723,7 +730,7 @@ def run(ctx):
         # histories first: until they are done no worker has called dt() itself, it only forks the session processes
         s2c_sessions(ctx, pool, 'MC_DatesSess_gen1.cfg' if ctx.quick else 'MC_DatesSess_gen2.cfg', findings)
         if not ctx.quick:               # TLC-simulated longer sessions through the same machine
-            s2c_sessions(ctx, pool, 'MC_DatesSess_sim.cfg', findings, simulate=30000, depth=6, seed=ctx.seed + 1)
+            s2c_sessions(ctx, pool, 'MC_DatesSess_sim.cfg', findings, simulate=8000, depth=6, seed=ctx.seed + 1, workers=1)
         sess_lines = c2s_sessions(ctx, pool, months)
         s2c(ctx, pool, 'MC_Dates_gen1.cfg', 'MC_Dates_genovf1.cfg', findings)
         if not ctx.quick:
@@ -742,6 +749,15 @@ def run(ctx):
         'only to build datetime/date arguments and to read toordinal()/hour/minute/second/microsecond of results',
         'an exception is encoded as "ValueError" when isinstance(e, ValueError) (dateutil ParserError is one), else by its class name',
         'nanosecond spellings (np.datetime64[ns], Timestamp.as_unit("ns")) exist only up to 2262-04-11; they are used for years <= 2261',
+        'sessions: every history runs in a forked copy of a process that has imported pyg_base and called nothing; the histories '
+        'sharing such a process are on different calendar days (slot j = the j-th history of every day), so a memo keyed on '
+        'anything finer than the calendar day starts empty for every history.  Arguments of dt() are immutable (str, int, float, '
+        'datetime, numpy / pandas scalars): equal arguments within a history are the same object, and there is nothing for the '
+        'caller to edit between calls',
+        'numbers with a fraction of a day (20000301.75, 730180.5) are accepted by dt() but not pinned by the statement '
+        '(Dates!Unpinned): they are called only BEFORE judged calls in a history and their own outcome is not compared',
+        'the number of decimals of the seconds (1..9, beyond 6 only zeros), hour:minute without seconds and the decimal comma of '
+        'ISO 8601 are taken in turn over the days / years in the single-call families (two per day), not all on every day',
         'excluded by the design: relative spellings (dt(-3), dt("1b"), dt()), time zones, 2-digit years; month-name strings are '
         'rendered in day-month-year, month-day-year and year-month-day order with English names (full, 3-letter, upper, lower case)',
     ]
